@@ -52,15 +52,10 @@ type Dir struct {
 	stalled   bool
 	Cap       int // bounded buffer (0: unlimited): Write blocks while full
 	Latency   func() time.Duration
+	queued    int // bytes written and not yet read
 }
 
-func (d *Dir) buffered() int {
-	n := 0
-	for _, s := range d.segs {
-		n += len(s.data)
-	}
-	return n
-}
+func (d *Dir) buffered() int { return d.queued }
 
 // Net groups the pipes of one run and owns counters.
 type Net struct {
@@ -127,12 +122,15 @@ func (d *Dir) readable(now time.Time) int {
 			return 0
 		}
 	}
-	n := 0
-	for _, s := range d.segs {
-		if s.at.After(now) {
-			break
+	n := d.queued
+	if d.Latency != nil {
+		n = 0
+		for _, s := range d.segs {
+			if s.at.After(now) {
+				break
+			}
+			n += len(s.data)
 		}
-		n += len(s.data)
 	}
 	if d.StallAt >= 0 && d.Delivered < d.StallAt && d.Delivered+n > d.StallAt {
 		n = d.StallAt - d.Delivered
@@ -156,6 +154,7 @@ func (d *Dir) take(n int) []byte {
 		}
 	}
 	d.Delivered += len(out)
+	d.queued -= len(out)
 	return out
 }
 
@@ -319,6 +318,7 @@ func (c *Conn) accept(p []byte) (int, error) {
 			at = d.segs[n-1].at // keep the byte stream ordered
 		}
 		d.segs = append(d.segs, seg{data: append([]byte(nil), q...), at: at})
+		d.queued += len(q)
 		d.Tap = append(d.Tap, q...)
 		d.Events = append(d.Events, TapEvent{Step: c.net.S.Steps, N: len(q)})
 		c.net.S.Note("wr %s %d", c.name, len(q))
